@@ -92,6 +92,19 @@ class SequenceBasedRoutingProblem(RoutingProblem):
     def set_depot(self, depot_name):
         """Take node named `depot_name` and move to first position in list"""
         super().set_depot(depot_name)
+        if self.strict:
+            # Arcs stored so far were checked against whichever node was first
+            # at the time (only the depot is exempt from the strict timing
+            # rule); now that the depot is known, check them again
+            old_arcs = self.arcs
+            self.vrptw.arcs = dict()
+            for arc in old_arcs.values():
+                self.add_arc(
+                    arc.origin.name,
+                    arc.destination.name,
+                    arc.travel_time,
+                    arc.cost
+                )
         # Since we treat the depot as absorbing
         # (see build_objective_quadratic_constraints)
         # We should allow Depot - Depot moves
